@@ -4,6 +4,7 @@ import (
 	"encoding/json"
 	"fmt"
 	"math/rand"
+	"strings"
 	"sync"
 	"time"
 
@@ -104,6 +105,21 @@ func GenCase(r *rand.Rand, seed int64, kind string) Case {
 		if r.Intn(4) > 0 {
 			cs.DLQ = &OutSpec{Workers: pickInt(r, 1, 2), Count: pickInt(r, 1, 4, 16), FlushMs: pickInt(r, 20, 150), Plain: true, FailPlan: "none"}
 		}
+		if DirectedIndex >= 0 && DirectedIndex%3 == 0 {
+			// every third case: split parents and their children share exhausted
+			// batches that go to a dead queue
+			cs.Chain = []ActionSpec{script, split}
+			cs.SplitPct = 30
+			if cs.DLQ == nil {
+				cs.DLQ = &OutSpec{Workers: 1, Count: pickInt(r, 1, 4), FlushMs: 20, Plain: true, FailPlan: "none"}
+			}
+			if cs.Out.Count < 2 {
+				cs.Out.Count = pickInt(r, 2, 5)
+			}
+			if strings.HasPrefix(cs.Out.FailPlan, "rand") {
+				cs.Out.FailPlan = "all"
+			}
+		}
 		cs.EventTimeoutMs = 30000
 	case "hold":
 		cs.EventTimeoutMs = pickInt(r, 100, 300)
@@ -141,6 +157,32 @@ func GenCase(r *rand.Rand, seed int64, kind string) Case {
 		cs.Out.FailPlan = "none"
 		cs.Out.FlushMs = 20
 		switch pickDirected(r) {
+		case 8:
+			// one processor, several sources; every source ends on a collapsed event
+			// followed by a discarded one (or by the time-out): the action stops
+			// waiting and the processor has to go back to the other streams
+			cs.Chain = []ActionSpec{script}
+			cs.SingleProc = true
+			cs.Procs = 1
+			cs.Sources = 3 + r.Intn(3)
+			cs.Readers = cs.Sources
+			cs.Streams = 0
+			cs.Pattern = []string{"N", "L", "D", "N", "L"}
+			cs.PerSource = 5*(1+r.Intn(3)) + pickInt(r, 0, 3)
+			cs.PadMax = 0
+		case 7:
+			// split in front of join: a child starts a new multi-line record (it
+			// flushes the held line and is held itself) while its parent bypasses
+			// join through ActionBreak
+			cs.Chain = []ActionSpec{split, join}
+			cs.Pattern = []string{"S", "J", "P", "N", "S", "C", "J", "N", "J", "P", "N"}
+			cs.PadMax = 0
+		case 6:
+			// split in front of join, the children never reach join (dropped in
+			// between): the parent bypasses the line that join holds
+			cs.Chain = []ActionSpec{split, script, join}
+			cs.Pattern = []string{"S", "K", "P", "N", "S", "C", "K", "N", "S", "K", "K", "P", "N"}
+			cs.PadMax = 0
 		case 5:
 			// several streams are charged at once while all processors sleep, then one
 			// processor is parked behind a held line for seconds: the others must serve
@@ -199,6 +241,9 @@ func GenCase(r *rand.Rand, seed int64, kind string) Case {
 		}
 		if cs.Pattern[0] == "H" {
 			cs.OpWeights["hold"] = 1
+		}
+		if cs.SingleProc {
+			cs.OpWeights["collapse"] = 1
 		}
 	case "stop":
 		// Stop while the output is retrying: nothing that was not delivered may be committed
@@ -442,7 +487,7 @@ var DirectedIndex = -1
 func pickDirected(r *rand.Rand) int {
 	n := r.Intn(6) // always draw: keeps the PRNG stream identical
 	if DirectedIndex >= 0 {
-		return DirectedIndex % 6
+		return DirectedIndex % 9
 	}
 	return n
 }
